@@ -621,7 +621,15 @@ func TestC17Hist(t *testing.T) {
 			if len(lines) < 3 {
 				continue
 			}
-			switch rapid.IntRange(0, 3).Draw(t, "derive") {
+			switch rapid.IntRange(0, 5).Draw(t, "derive") {
+			case 4:
+				// a line (or a run of lines) written twice: what is inserted looks like its surroundings
+				k := rapid.IntRange(0, len(lines)-1).Draw(t, "dup")
+				n := rapid.IntRange(1, min(3, len(lines)-k)).Draw(t, "dupn")
+				if !strings.HasSuffix(lines[k+n-1], "\n") {
+					continue
+				}
+				c.Texts = append(c.Texts, strings.Join(lines[:k+n], "")+strings.Join(lines[k:], ""))
 			case 0:
 				k := rapid.IntRange(1, len(lines)-1).Draw(t, "keep")
 				c.Texts = append(c.Texts, strings.Join(lines[:k], ""))
